@@ -28,6 +28,15 @@ def flows_for(gp, pname, stream, batches, cpp=True):
         for b in batches:
             c = gp.cpp_call(pname, "binary", "binary", stream, batch=b)
             flows.append(("c++ CopyTo capacity=%d" % b, {"ok": c["ok"], "err": c["err"], "out": c["out"].hex()}))
+        if gp.ndjson:
+            # the NDJSON reader has no batch method of its own: it goes through the fallback Read<Step>Impl(std::vector&) of protocols.cc
+            nd = gp.cpp_call(pname, "binary", "ndjson", stream, batch=1)
+            if not nd["ok"]:
+                flows.append(("c++ binary->ndjson", {"ok": False, "err": nd["err"], "out": ""}))
+            else:
+                for b in batches[:4]:
+                    c = gp.cpp_call(pname, "ndjson", "binary", nd["out"], batch=b)
+                    flows.append(("c++ ndjson reader (fallback batch read) CopyTo capacity=%d" % b, {"ok": c["ok"], "err": c["err"], "out": c["out"].hex()}))
     return flows
 
 
@@ -65,7 +74,7 @@ def run(ctx):
     cases, meta = [], []
     # ---- Edge package: crafted consecutive items
     pkg, _ = edgepkg.build()
-    edge = genrun.GenPackage(ctx, pkg, "edge", ndjson=False, cpp=True)
+    edge = genrun.GenPackage(ctx, pkg, "edge", ndjson=True, cpp=True)
     if not edge.generate():
         raise RuntimeError("yardl rejected the Edge package: " + edge.gen_out[-1500:])
     edge.schemas_ = edge.schemas()
